@@ -111,6 +111,10 @@ def sweep(chk, r, root, df, in_parts, npart, mode, kinds, positions, tag):
         # the order of the calls differs from run to run (dask orders tasks by their random keys), so a stale listing is
         # planned as "the j-th ls" and a partial write as "the j-th open", for every j
         keys = [("ls", j) for j in range(1, n_ls + 1)] if kind == "stale" else [("open", j) for j in range(1, n_open + 1)] if kind == "partial" else pos_list
+        if "@" in kind:
+            # "fnf@rm": the fault at the j-th call of that method, for every j
+            kind, meth = kind.split("@")
+            keys = [(meth, j) for j in range(1, sum(1 for c in base["log"] if c[0] == meth) + 1)]
         for k in keys:
             name = k[0] if isinstance(k, tuple) else base["log"][k - 1][0]
             res = one_run(df, in_parts, npart, mode, {k: kind}, root)
@@ -156,6 +160,10 @@ def run_cases(chk, tier):
         # empty output partitions + external temp dir
         dfd = make_frame(r, 9, dup=True)
         sweep(chk, r, root, dfd, 2, 5, "outside-uuid", ["oserror"], "all", "empties")
+        # a removal / move / listing / existence test that transiently reports "no such file", at every call of these methods
+        # (with an external temporary area nothing else removes the same path a second time)
+        sweep(chk, r, root, dfd, 2, 5, "outside-uuid", ["fnf@rm", "fnf@mv", "fnf@ls", "fnf@exists"], "all", "empties-fnf")
+        sweep(chk, r, root, df, 2, 3, "outside-plain", ["fnf@rm", "fnf@mv"], "all", "plain-fnf")
         if tier != "quick":
             sweep(chk, r, root, dfd, 2, 5, "outside-plain", ["oserror", "fnf", "stale", "partial"], "all", "empties-plain")
             # pairs of faults and repeats up to / beyond the retry budget
